@@ -22,38 +22,38 @@ def tok_run(nq_rand, nt_rand, lq=3, lt=5):
 
 PROPS = {
     "C01": dict(
-        runs=[parse_run("scalar", "11001100", 5000, 200000), tok_run(20000, 300000)],
+        runs=[parse_run("scalar", "11001100", 5000, 200000), tok_run(20000, 300000), build_run(1500, 60000, "build")],
         rule="scalar option kinds x both spellings x 3 modes x value pools (boundary/malformed numerals, dashes, '=', newlines, bytes); non-trivial = a scalar option exists, an option token is present and some value text is not a plain ASCII word",
     ),
     "C02": dict(
-        runs=[parse_run("multi", "11011000", 5000, 200000), tok_run(5000, 50000)],
+        runs=[parse_run("multi", "11011000", 5000, 200000), tok_run(5000, 50000), build_run(1500, 60000, "build")],
         rule="slice/map options with 1<=min<=max<=5 and argv of option occurrences with 0..max+1 followers of every token kind; non-trivial = a multi-value option exists and argv has >= 3 tokens",
     ),
     "C03": dict(
         runs=[parse_run("general", "00010000", 4000, 200000), parse_run("unknown", "00010000", 2000, 100000),
-              parse_run("bundle", "00010000", 3000, 100000)],
+              parse_run("bundle", "00010000", 3000, 100000), build_run(1500, 60000, "build")],
         rule="generated (definition, argv) pairs; non-trivial = argv has >= 3 token kinds and remaining is not empty; distinct by (definition, argv) hash",
         assumptions=["the labels of Proofs/Labels.v describe the parser's own decisions; their meaning is pinned by the C03_label_* theorems"],
     ),
     "C04": dict(
-        runs=[parse_run("term", "00011100", 4000, 200000)],
+        runs=[parse_run("term", "00011100", 4000, 200000), build_run(1500, 60000, "build")],
         rule="argv with `--` planted after every context kind; non-trivial = `--` present and neither first nor last",
     ),
     "C05": dict(
-        runs=[parse_run("abbrev", "11001100", 4000, 200000)],
+        runs=[parse_run("abbrev", "11001100", 4000, 200000), build_run(1500, 60000, "build")],
         rule="every prefix of every key of colliding name sets; non-trivial = name set has two keys sharing a prefix and argv has an option token",
     ),
     "C06": dict(
-        runs=[parse_run("alias", "00001100", 5000, 200000), parse_run("general", "00001100", 2000, 100000)],
+        runs=[parse_run("alias", "00001100", 5000, 200000), parse_run("general", "00001100", 2000, 100000), build_run(1500, 60000, "build")],
         rule="definitions where 90% of the options have 1-3 aliases, argv choosing a key per occurrence; non-trivial = some option has an alias and argv has >= 2 option tokens; plus the access-path oracle (pointer, *Var target, Value/Called/CalledAs through every key) on every case",
         assumptions=["pointer / *Var / Value(x) agreement is by construction in the model (one store entry per option); on the real library it is established by the access-path oracle of the harness"],
     ),
     "C07": dict(
-        runs=[parse_run("modes", "11011100", 4000, 200000), parse_run("bundle", "11011100", 3000, 100000), tok_run(30000, 500000)],
+        runs=[parse_run("modes", "11011100", 4000, 200000), parse_run("bundle", "11011100", 3000, 100000), tok_run(30000, 500000), build_run(1500, 60000, "build")],
         rule="all three modes with single-dash tokens of any shape (multi-byte letters, attached values, bundles with flags/valued/unknown letters); non-trivial = a single-dash token of length >= 3 or with attached value",
     ),
     "C08": dict(
-        runs=[parse_run("unknown", "11010010", 5000, 200000), parse_run("bundle", "11010010", 2000, 100000)],
+        runs=[parse_run("unknown", "11010010", 5000, 200000), parse_run("bundle", "11010010", 2000, 100000), build_run(1500, 60000, "build")],
         rule="unknown long/short/bundled options with and without attached values planted before/after command tokens and in wrapper commands, 3 unknown modes x 3 single-dash modes; non-trivial = an unknown option was reported, warned about or passed through",
     ),
     "C10": dict(
@@ -98,7 +98,7 @@ PROPS = {
         assumptions=["the completion functions are drawn from a described family of four (constant list, prefix filter, echo of the partial word / number of previous arguments, by target) implemented identically in Go and in Gallina; the theorems quantify over arbitrary functions"],
     ),
     "C18": dict(
-        runs=[dispatch_run("help", "00000000", "000011", 3000, 100000), dispatch_run("dispatch", "00000000", "000011", 2000, 100000)],
+        runs=[dispatch_run("help", "00000000", "000011", 3000, 100000), dispatch_run("dispatch", "00000000", "000011", 2000, 100000), build_run(1500, 60000, "help")],
         coq_sample=8,
         rule="levels with up to 8 options over all 12 kinds, 0-3 aliases, required / env / multi-line descriptions / argument declarations / commands; the exact bytes of Help() and of the help written by Dispatch are compared with the model's rendering; non-trivial = Parse succeeded and the tree has >= 4 option objects",
         trusted_extra=["DefaultStr of numeric defaults (fmt %d %f %t) and HelpArgName are taken from the dump, not recomputed"],
@@ -117,13 +117,13 @@ PROPS = {
         assumptions=["panics or super-linear behaviour inside Go's regexp/strconv/fmt/sort are outside the model: that part is search (recover + deadline), labelled as such"],
     ),
     "C20": dict(
-        runs=[parse_run("perm", "11111111", 3000, 100000, extra=["-repeat", "6"]), dispatch_run("help", "11111111", "111111", 1500, 50000)],
+        runs=[parse_run("perm", "11111111", 3000, 100000, extra=["-repeat", "6"]), dispatch_run("help", "11111111", "111111", 1500, 50000), build_run(1500, 60000, "build")],
         coq_sample=10,
         rule="definitions with several candidates for every diagnostic (missing required options, unknown options, ambiguous prefixes); each case is executed 6 times on fresh definitions (Go randomises map order per range) and all observables incl. error text, warnings and help text must be byte-identical; the model is evaluated on the dumped table order and on every table reversed; non-trivial = the root has >= 2 options",
         assumptions=["cross-process determinism is covered only through repeated in-process definitions (map iteration is randomised per range statement, not per process)"],
     ),
     "C09": dict(
-        runs=[parse_run("order", "00011100", 4000, 200000)],
+        runs=[parse_run("order", "00011100", 4000, 200000), build_run(1500, 60000, "build")],
         rule="trees with SetRequireOrder at some level; non-trivial = require-order set somewhere and argv has >= 2 tokens",
     ),
 }
